@@ -31,7 +31,7 @@ TRUTHY = [True, 1, "yes", ["/"]]
 ENVVALS = [None, "0", "1", "true", "TRUE", "yes"]
 EXT_ENV = "PYSIGMA_ALLOW_EXTERNAL_SOURCES"
 VARS_ENV = "PYSIGMA_ALLOW_VARS_EXECUTION"
-BOUNDS = {"quick": dict(depth=2, pairs=False), "thorough": dict(depth=3, pairs=True)}
+BOUNDS = {"quick": dict(depth=2, pairs=False), "thorough": dict(depth=4, pairs=True)}
 
 EVENTS = []
 _ARMED = [False]
